@@ -1,1 +1,1 @@
-    ensures r is Ok <==> item_verdict(item_name(item), item_mats(item), item_prods(item), reduced_link_files@),   // [C03]
+    ensures r is Ok <==> item_verdict(item_name(item), item_mats(item), item_prods(item), reduced_link_files@),   // [C03,C08,C13]
